@@ -205,6 +205,16 @@ func (w *Worker) regionMerge(fr *frame, x *ssa.If, cnd *Term, J *ssa.BasicBlock)
 	// and the loop header) their env slots are merge outputs too.
 	domSlots := w.domSlots(fr, J)
 	envSnap := append([]Value{}, fr.env...)
+	namesSnap := map[string]int{}
+	for k, v := range w.names {
+		namesSnap[k] = v
+	}
+	restoreNames := func() {
+		w.names = map[string]int{}
+		for k, v := range namesSnap {
+			w.names[k] = v
+		}
+	}
 	var outs []regOutcome
 	queue := [][]int{{}}
 	fail := false
@@ -252,6 +262,7 @@ func (w *Worker) regionMerge(fr *frame, x *ssa.If, cnd *Term, J *ssa.BasicBlock)
 						w.truncPC(pcMark)
 						w.solver.Pop()
 						copy(fr.env, envSnap)
+						restoreNames()
 						restore()
 						panic(r)
 					default:
@@ -317,6 +328,7 @@ func (w *Worker) regionMerge(fr *frame, x *ssa.If, cnd *Term, J *ssa.BasicBlock)
 		w.rollback(mark)
 		w.truncPC(pcMark)
 		w.solver.Pop()
+		restoreNames()
 		w.cur, w.depth = savedCur, savedDepth
 		if len(fr.defers) > baseDefers {
 			fr.defers = fr.defers[:baseDefers]
